@@ -30,6 +30,8 @@ Nil == [t |-> "Nil", c |-> <<>>]
 SCS == <<"Q", "f64", "f32", "i32", "u8", "i64", "u16", "isize">>
 Call(op, f, a, d) == [op |-> op, f |-> f, a |-> a, d |-> d]
 Prog(regs, calls) == [sc |-> SCS, regs |-> regs \o [i \in 1..(20 - Len(regs)) |-> Nil], calls |-> calls]
+\* the Matrix trait (swap_*, replace_col, ...) exists for floating-point element types only
+ProgF(regs, calls) == [Prog(regs, calls) EXCEPT !.sc = <<"Q", "f64", "f32">>]
 
 Letters4 == <<"x", "y", "z", "w">>
 Words(n, maxlen) == UNION {[1..len -> 1..n] : len \in 1..maxlen}
@@ -48,7 +50,11 @@ IndexProgs(ty) == IF IsMat(ty) THEN {Prog(<<ValOf(ty), Iv(i)>>, <<Call("col", "m
                   ELSE {Prog(<<ValOf(ty), Iv(i)>>, <<Call("index", "m", <<1, 2>>, 3)>>) : i \in -1..(NC(ty) + 2)}
                        \cup {Prog(<<ValOf(ty), Tv(kd), Iv(lo), Iv(hi)>>, <<Call("index_range", "m", <<1, 2, 3, 4>>, 5)>>)
                                : kd \in {"range", "to", "from"}, lo \in 0..(NC(ty) + 1), hi \in {0, NC(ty), NC(ty) + 1}}
-SwapProgs(ty) == IF IsMat(ty) \/ ty = "Quaternion" THEN {}
+\* matrices: swap_elements takes (column, row) pairs like m[c][r]; every pair of cells, every out-of-range index
+MatSwapProgs(ty) == LET n == ISqrt(NC(ty)) IN
+       {ProgF(<<ValOf(ty), Iv(ac), Iv(ar), Iv(bc), Iv(br)>>, <<Call("swap_elems", "m", <<1, 2, 3, 4, 5>>, 6)>>) : ac \in 0..n, ar \in 0..n, bc \in 0..n, br \in 0..n}
+  \cup {ProgF(<<ValOf(ty), Iv(i), Iv(j)>>, <<Call(op, "m", <<1, 2, 3>>, 4)>>) : op \in {"swap_rows", "swap_cols"}, i \in 0..n, j \in 0..n}
+SwapProgs(ty) == IF ty = "Quaternion" THEN {} ELSE IF IsMat(ty) THEN MatSwapProgs(ty)
                  ELSE {Prog(<<ValOf(ty), Iv(i), Iv(j)>>, <<Call("swap_elements", "m", <<1, 2, 3>>, 4)>>) : i \in 0..NC(ty), j \in 0..NC(ty)}
                       \cup {Prog(<<ValOf(ty), Sv(R(5)), FromCanon(TypeTag(ty), [i \in 1..NC(ty) |-> R(30 + 2 * i)])>>,
                                  <<Call("map", "m", <<1, 2>>, 4), Call("zip", "m", <<1, 3>>, 5)>>)}
